@@ -18,6 +18,7 @@ func copyAndLanes(id string) func(prog *Program, repo, tier string) ([]simpleObl
 	return func(prog *Program, repo, tier string) ([]simpleObligation, []string) {
 		out := append(copyObligations(prog, id), laneObligations(prog, id)...)
 		out = append(out, storesViaObligations(prog, id)...)
+		out = append(out, unrolledObligations(prog, id)...)
 		return append(out, readonlyObligations(prog, id)...), nil
 	}
 }
@@ -189,6 +190,7 @@ var propertyConfigs = map[string]*propertyConfig{
 			"slices have length <= 2^40 and addresses <= 2^56 (address-space bound)",
 			"meaning clauses of vector kernels follow from the per-lane data-flow postcondition plus the scalar 'meaning' lemma (meta-step of the engine)",
 			"NOT decided here: that the log N butterfly layers compose to the negacyclic DFT (stated lemma, DESIGN.md 4/C01 4c)",
+			"unrolled (structural): in the four hand-unrolled layer functions of ring/ntt.go every run of eight (or, mirrored layer, seven) unrolled units follows one radix-2 index pattern (which coefficients and which twiddle group meet in a lane); the four *CoreLazy dispatchers above them remain ASSUMED for frame and range",
 			"lanes8 (structural): the hand-unrolled gathers of AutomorphismNTTWithIndex[ThenAddLazy] and subScalarMontgomeryAndMulCoeffsMontgomery touch one lane per statement and cover every lane once; their values (the permutation being the Galois automorphism) are not decided",
 		},
 		Trusted: stdTrusted, Simple: copyAndLanes("C01"),
